@@ -92,7 +92,7 @@ func runLifetime(c C13Case, ev *Evid) (fs []Finding) {
 	var err error
 	expectFail := true
 	switch c.Mode {
-	case "healthy-open", "healthy-open-spawn", "healthy-open-unprivileged", "healthy-open-double-close", "healthy-open-mode0444", "healthy-open-synced", "healthy-open-after-options", "healthy-open-replaced-while-waiting":
+	case "healthy-open", "healthy-open-spawn", "healthy-open-unprivileged", "healthy-open-double-close", "healthy-open-mode0444", "healthy-open-synced", "healthy-open-after-options", "healthy-open-replaced-while-waiting", "open-while-being-created", "recreate-while-held":
 		os.WriteFile(path, valid, 0644)
 		if c.Mode == "healthy-open-after-options" {
 			// an earlier Open of ANOTHER file with non-default options (unlocked, read-only) in this process must
@@ -145,6 +145,39 @@ func runLifetime(c C13Case, ev *Evid) (fs []Finding) {
 	case "create-exists":
 		os.WriteFile(path, valid, 0644)
 		db, err = createWT(path, c13Layout)
+	case "create-bad-arguments":
+		// a Create that fails on what it was asked to lay out (an archive list no file can have, an unknown
+		// aggregation method, an xFilesFactor outside [0,1]): on a new path, or in place over an existing file
+		var opts []wt.Option
+		if c.Cut%2 == 1 {
+			os.WriteFile(path, valid, 0644)
+			opts = append(opts, wt.WithOpenFileFlag(os.O_RDWR))
+		}
+		good := wtArchives(c13Layout)
+		m, x, list := wt.AggregationMethod(c13Layout.Method), float32(0.5), good
+		switch c.Cut / 2 % 6 {
+		case 0:
+			list = nil
+		case 1:
+			list = wtArchives(Layout{Archives: []Arch{{Step: 60, Points: 10}, {Step: 1, Points: 30}}})
+		case 2:
+			m = 0
+		case 3:
+			x = 2
+		case 4:
+			x = float32(math.NaN())
+		default:
+			list = wtArchives(Layout{Archives: []Arch{{Step: 2, Points: 10}, {Step: 3, Points: 30}}})
+		}
+		if pm := guard(func() { db, err = wt.Create(path, list, m, x, opts...) }); pm != "" {
+			err = fmt.Errorf("PANIC in Create: %s", pm)
+		}
+		if err == nil {
+			// (accepting such arguments is C07's business, not a lifetime matter)
+			db.Close()
+			ev.Count(HashJSON(c), false, "mode="+c.Mode, "created-anyway")
+			return nil
+		}
 	}
 	if strings.HasPrefix(fmt.Sprint(err), "PANIC") {
 		add("panic", "%v", err)
@@ -258,6 +291,127 @@ func runLifetime(c C13Case, ev *Evid) (fs []Finding) {
 		}
 		if early {
 			add("second-open-early", "mode=%s: an Open by a user who may only read the file returned a handle while the first handle was still open (held for %v)", c.Mode, hold)
+			return
+		}
+		ev.Count(HashJSON(c), true, "mode="+c.Mode)
+		return
+	}
+	if c.Mode == "recreate-while-held" {
+		// a Create in place (another layout, another size) arrives while a handle holds the file: it waits like an
+		// Open does, and until the holder closes, the file is the holder's - not a byte of it changes
+		updateWT(db, 0, 1500000000, 5, 1500000000)
+		if serr := db.Sync(); serr != nil {
+			db.Close()
+			add("healthy-fails", "Sync: %v", serr)
+			return
+		}
+		before, _ := os.ReadFile(path)
+		other := Layout{Archives: []Arch{{Step: 1, Points: 5}}, Method: 2}
+		if c.Cut%2 == 1 {
+			other = Layout{Archives: []Arch{{Step: 1, Points: 1200}, {Step: 60, Points: 2000}}, Method: 1, XFF: 0.5}
+		}
+		type res struct {
+			d   *wt.Whisper
+			err error
+		}
+		got := make(chan res, 1)
+		go func() {
+			d, e := createWT(path, other, wt.WithOpenFileFlag(os.O_RDWR))
+			got <- res{d, e}
+		}()
+		time.Sleep(time.Duration(20+c.Cut%40) * time.Millisecond)
+		select {
+		case r := <-got:
+			db.Close()
+			if r.err == nil {
+				r.d.Close()
+				add("second-open-early", "a Create in place returned a handle while another handle was still open")
+				return
+			}
+			ev.Count(HashJSON(c), true, "mode="+c.Mode, "create-refused")
+			return nil
+		default:
+		}
+		during, _ := os.ReadFile(path)
+		if !bytesEq(before, during) {
+			db.Close()
+			if r := <-got; r.err == nil {
+				r.d.Close()
+			}
+			add("changed-while-held", "a Create in place that is waiting for the lock changed the file under the handle that holds it: %d bytes before, %d bytes now (first difference at byte %d)", len(before), len(during), firstDiff(before, during))
+			return
+		}
+		db.Close()
+		select {
+		case r := <-got:
+			if r.err != nil {
+				add("create-after-wait-fails", "the Create in place that waited for the lock failed: %v", r.err)
+				return
+			}
+			r.d.Sync()
+			r.d.Close()
+			if st, _ := os.Stat(path); st == nil || st.Size() != other.FileSize() {
+				add("create-after-wait-size", "after the waiting Create in place the file does not have the new layout's size %d", other.FileSize())
+				return
+			}
+		case <-time.After(5 * time.Second):
+			add("second-open-stuck", "a Create in place that waited for the lock did not return within 5 s after the holder closed")
+			return
+		}
+		if n := countFDs(path); n != 0 {
+			add("descriptor-leak", "%d descriptors remain after Close", n)
+			return
+		}
+		ev.Count(HashJSON(c), true, "mode="+c.Mode)
+		return
+	}
+	if c.Mode == "open-while-being-created" {
+		// a reader arrives while the file is still being laid out: the creator holds the lock on the (still empty)
+		// file, sizes it, writes the header, Syncs and releases; the reader, which waited for the lock, must then
+		// open the complete, valid file - it observes the file as of a session boundary
+		db.Close()
+		os.Remove(path)
+		os.WriteFile(path, nil, 0644)
+		fd, ferr := syscall.Open(path, syscall.O_RDWR, 0)
+		if ferr != nil || syscall.Flock(fd, syscall.LOCK_EX) != nil {
+			add("setup", "cannot lock the empty file: %v", ferr)
+			return
+		}
+		type res struct {
+			d   *wt.Whisper
+			err error
+		}
+		got := make(chan res, 1)
+		go func() {
+			d, e := openWT(path)
+			got <- res{d, e}
+		}()
+		time.Sleep(time.Duration(30+c.Cut%40) * time.Millisecond) // let the reader reach the lock
+		cdb, cerr := createWT(path, c13Layout, wt.WithOpenFileFlag(os.O_RDWR), wt.WithoutFlock())
+		if cerr == nil {
+			updateWT(cdb, 0, 1500000000, 7, 1500000000)
+			cerr = cdb.Sync()
+			cdb.Close()
+		}
+		syscall.Close(fd) // releases the creator's lock
+		if cerr != nil {
+			add("setup", "laying out the file: %v", cerr)
+			return
+		}
+		select {
+		case r := <-got:
+			if r.err != nil {
+				add("open-after-create-fails", "an Open that waited for the creator's lock failed on the complete, synced file: %v", r.err)
+				return
+			}
+			rs := fetchWT(r.d, 0, 1499999999, 1500000000, 1500000000)
+			r.d.Close()
+			if rs.Err != nil || rs.Nil || len(rs.S.Values) < 1 || rs.S.Values[0] != 7 {
+				add("open-after-create-stale", "an Open that waited for the creator's lock does not see what the creator synced (err %v nil %v values %v)", rs.Err, rs.Nil, rs.S.Values)
+				return
+			}
+		case <-time.After(5 * time.Second):
+			add("second-open-stuck", "an Open that waited for the creator's lock did not return within 5 s after its release")
 			return
 		}
 		ev.Count(HashJSON(c), true, "mode="+c.Mode)
@@ -644,7 +798,7 @@ func runC13(c C13Case, ev *Evid) []Finding {
 func genC13(t *rapid.T) C13Case {
 	if rapid.IntRange(0, 9).Draw(t, "kind") < 8 {
 		c := C13Case{Kind: "lifetime"}
-		c.Mode = rapid.SampledFrom([]string{"healthy-open", "healthy-create", "healthy-open-unprivileged", "healthy-open-double-close", "healthy-open-mode0444", "healthy-open-synced", "healthy-open-after-options", "healthy-open-replaced-while-waiting", "open-empty", "open-truncated", "open-truncated", "open-corrupt", "open-corrupt", "open-short-body", "create-readonly-flag", "create-exists"}).Draw(t, "mode")
+		c.Mode = rapid.SampledFrom([]string{"healthy-open", "healthy-create", "healthy-open-unprivileged", "healthy-open-double-close", "healthy-open-mode0444", "healthy-open-synced", "healthy-open-after-options", "healthy-open-replaced-while-waiting", "open-while-being-created", "recreate-while-held", "create-bad-arguments", "open-empty", "open-truncated", "open-truncated", "open-corrupt", "open-corrupt", "open-short-body", "create-readonly-flag", "create-exists"}).Draw(t, "mode")
 		switch c.Mode {
 		case "open-truncated":
 			c.Cut = rapid.IntRange(1, 27).Draw(t, "cut")
@@ -678,7 +832,7 @@ func genC13(t *rapid.T) C13Case {
 func TestC13(t *testing.T) {
 	RunProperty(t, Property[C13Case]{
 		ID:          "C13",
-		Rule:        "two kinds of generated cases. lifetime (80%): an Open or Create is made to fail after the descriptor was obtained (empty file, every truncation of a valid header, mutated / corrupt header bytes, body shorter than the header says, Create whose Truncate fails on a read-only descriptor, Create on an existing file) or succeeds (healthy); with the garbage collector disabled (so a finalizer cannot hide a leak) the harness counts /proc/self/fd links to the path, tries flock(LOCK_EX|LOCK_NB) on a fresh descriptor and opens the repaired path with a deadline; for healthy handles the probe must be refused while the handle lives, a second default Open must not return before Close (one fixed case holds the handle for 1.3 s), and both must succeed afterwards - also when a child process was started while the handle was open and is still running (one fixed case). sessions (20%): 2-8 concurrent open -> read counter -> generated yield -> stamp all 1200 slots (4 pages) with counter+1 -> Sync -> Close sessions x 1-6 rounds, as goroutines or as separate processes, with 0-3 readers fetching the whole archive in a loop; oracle: no session error, final counter == number of sessions, every reader fetch shows a single generation. Non-trivial: lifetime cases where the file exists after the call; session rounds in which >=2 sessions overlapped in time (measured). Every session round counts as distinct (its schedule is not reproducible).",
+		Rule:        "two kinds of generated cases. lifetime (80%): an Open or Create is made to fail after the descriptor was obtained (empty file, every truncation of a valid header, mutated / corrupt header bytes, body shorter than the header says, Create whose Truncate fails on a read-only descriptor, Create on an existing file) or succeeds (healthy); with the garbage collector disabled (so a finalizer cannot hide a leak) the harness counts /proc/self/fd links to the path, tries flock(LOCK_EX|LOCK_NB) on a fresh descriptor and opens the repaired path with a deadline; for healthy handles the probe must be refused while the handle lives, a second default Open must not return before Close (one fixed case holds the handle for 1.3 s), and both must succeed afterwards - also when a child process was started while the handle was open and is still running (one fixed case). sessions (20%): 2-8 concurrent open -> read counter -> generated yield -> stamp all 1200 slots (4 pages) with counter+1 -> Sync -> Close sessions x 1-6 rounds, as goroutines or as separate processes, with 0-3 readers fetching the whole archive in a loop; oracle: no session error, final counter == number of sessions, every reader fetch shows a single generation. Lifetime modes added later: Open while the file is being laid out, path replaced while an Open waits, a Create in place of another size arriving while a handle holds the file (not a byte may change until the holder closes), a Create that fails on its arguments (new path and in place). Non-trivial: lifetime cases where the file exists after the call; session rounds in which >=2 sessions overlapped in time (measured). Every session round counts as distinct (its schedule is not reproducible).",
 		Assumptions: []string{"OS scheduling is not controlled: the session part is randomized stress, not an enumeration of interleavings", "flock semantics of the Linux kernel"},
 		Gen:         genC13,
 		Run:         runC13,
